@@ -91,6 +91,21 @@ def seeded_md():
     caught = sum(1 for r in rows if r[3].startswith("caught"))
     missed = sum(1 for r in rows if r[3].startswith("MISSED"))
     out += ["", f"Totals: {n} changes kept, {caught} caught, {missed} missed, {n - caught - missed} not run / neutralized."]
+    # per-round honesty table: verdict of the FIRST run of each change (before any strengthening aimed at it) vs the last run
+    def rnd(name):
+        return 1 if int(name.rsplit("-", 1)[1]) <= 2 else 2
+    out += ["", "Per round (round 1 = changes `-1`/`-2`, written while the checks were being built; round 2 = changes `-3`/`-4`, written by fresh sub-agents after all",
+            "checks existed and never shown to the checks' authors before their first run). \"first run\" is the check as it was when the change was first tried;",
+            "\"last run\" is after the author of the check was told which *class of input* it had not generated (never the patch) and extended the workload.", "",
+            "| round | changes | caught at first run | caught at last run | still missed | neutralized by a later fix / not run |", "|---|---|---|---|---|---|"]
+    for rd in (1, 2):
+        rs = [r for r in rows if rnd(r[0]) == rd]
+        neut = [r for r in rs if r[2].startswith("neutralized")]
+        rs_live = [r for r in rs if not r[2].startswith("neutralized")]
+        first_c = sum(1 for r in rs_live if r[3].startswith("caught") and "missed before" not in r[3])
+        last_c = sum(1 for r in rs_live if r[3].startswith("caught"))
+        ms = sum(1 for r in rs_live if r[3].startswith("MISSED"))
+        out.append(f"| {rd} | {len(rs)} | {first_c} | {last_c} | {ms} | {len(rs) - last_c - ms} |")
     return "\n".join(out)
 
 
